@@ -314,6 +314,9 @@ func (c *checkSchema) collectAllowedJsonTypes(node schema.Node, ss map[string]sc
 		}
 		c.foundTypeNames[typeName] = struct{}{}
 		c.collectAllowedJsonTypes(getType(typeName, c.rootSchema, ss).RootNode(), ss) // can panic
+		// Only the types being expanded count: the same type reached again
+		// through another branch is not a recursion.
+		delete(c.foundTypeNames, typeName)
 	}
 }
 
